@@ -137,6 +137,15 @@ def spell_vector(a, k):
             ("LC:float32", add(("LC", ("arr", tuple(float(x) for x in a), "float32"), V), c(k))),
             ("c@v:list-of-ints", add(("mm", ("lst", ai), V), c(k))),
             ("c@(v+1):int64", add(("mm", ("arr", ai, "int"), ("vbin", "+", V, c(1))), c(k - sum(a))))]
+    # integer coefficient data PLUS fractional extra terms on the same columns (a[1] = (a[1] - 1) + 0.5 + 0.5; a[2] = (a[2] + 1) - 0.25 * 4)
+    am = (ai[0], ai[1] - 1, ai[2] + 1)
+    halves = add(mul(c(0.5), ("idx", V, 1)), mul(c(0.5), ("idx", V, 1)))
+    quarter = mul(c(0.25), mul(c(4), ("idx", V, 2)))
+    out += [("c@v:int64+fractions", add(("bin", "-", ("bin", "+", ("mm", ("arr", am, "int"), V), halves), quarter), c(k))),
+            ("c@v:list+fractions", add(("bin", "+", ("mm", ("lst", am), V), ("bin", "-", halves, quarter)), c(k))),
+            ("fractions+LC:int32", add(("bin", "+", ("bin", "-", halves, quarter), ("LC", ("arr", am, "int32"), V)), c(k)))]
+    if k == 0:
+        out += [("bare-c@v:int64+fractions", ("bin", "+", ("mm", ("arr", am, "int"), V), ("bin", "-", halves, quarter)))]
     if k == 0:
         out += [("bare-c@v:int64", ("mm", ("arr", ai, "int"), V)), ("bare-LC:int32", ("LC", ("arr", ai, "int32"), V))]
     # every (vector node, constant) root shape in both operand orders: c@v op k, k op c@v, for op in + - * /
